@@ -34,14 +34,16 @@ pub struct ProbeSpec {
     pub attach: Option<(u8, usize, usize)>,
     /// the sink may send Pulls after it received the end or after it disposed (from_iter / C15 only)
     pub late_pulls: bool,
+    /// the sink does not keep the talkback it is greeted with (it can then never act; conformant)
+    pub drop_talkback: bool,
 }
 
 impl ProbeSpec {
     pub fn passive() -> Self {
-        ProbeSpec { policy: vec![], rest: React::Nothing, pull_cap: 1000, attach: None, late_pulls: false }
+        ProbeSpec { policy: vec![], rest: React::Nothing, pull_cap: 1000, attach: None, late_pulls: false, drop_talkback: false }
     }
     pub fn puller() -> Self {
-        ProbeSpec { policy: vec![], rest: React::Pull, pull_cap: 1000, attach: None, late_pulls: false }
+        ProbeSpec { policy: vec![], rest: React::Pull, pull_cap: 1000, attach: None, late_pulls: false, drop_talkback: false }
     }
 }
 
@@ -114,7 +116,7 @@ impl<T: Repr + Send + Sync + 'static> Probe<T> {
         match message {
             Message::Handshake(tb) => {
                 let _f = self.world.enter(self.edge, Dir::Down, Kind::Handshake, Val::none(), -1);
-                {
+                if !self.spec.drop_talkback {
                     let mut t = self.talkback.lock().unwrap();
                     if t.is_none() {
                         *t = Some(tb);
